@@ -122,6 +122,11 @@ def check_xml_index(case, cc):
     cc.cls('xml-index:>=2-logical-files', len(model['logical_files']) >= 2)
     cc.nt(len(model['tables']) >= 2 and n_frames >= 3)
     cc.sample(GD.summary(case, model))
+    # the writer's `private` option: with it every table lists its objects, without it the tables of private record types
+    # (128..255) are still entries of the index ("one entry per table") but list no objects
+    private = (len(data) // 2 + len(model['tables'])) % 2 == 0
+    cc.cls('xml-index:private-option-off', not private)
+    cc.cls('xml-index:private-table-with-option-off', not private and any(t['lr_type'] >= 128 for t in model['tables']))
     with tempfile.TemporaryDirectory(prefix='vt_c18x_') as d:
         path = os.path.join(d, 'gen.dlis')
         with open(path, 'wb') as f:
@@ -131,7 +136,7 @@ def check_xml_index(case, cc):
         try:
             with LogicalFile.LogicalIndex(path) as li:
                 with open(out, 'w') as fout:
-                    IndexXML.write_logical_file_sequence_to_xml(li, fout, True)
+                    IndexXML.write_logical_file_sequence_to_xml(li, fout, private)
         except Exception as e:  # noqa
             err = e
         c18.release_exception_frames(err)
@@ -170,7 +175,8 @@ def check_xml_index(case, cc):
         # attribute values of every object (the index was written with private=True, so every EFLR lists its objects)
         if ascii_ok and got == want:
             for e, ti in zip(eflrs, lf['tables']):
-                _compare_objects(cc, c18, e, model['tables'][ti], k)
+                if private or model['tables'][ti]['lr_type'] < 128:
+                    _compare_objects(cc, c18, e, model['tables'][ti], k)
         lp = lf['log_pass']
         xlp = x.find('LogPass')
         if lp is None:
